@@ -82,6 +82,27 @@ def closedStepB (nv : Nat) (P Q : Pop) : Bool :=
 /-- selection = any sub-selection of taxa (indices may repeat) — `select_taxa` -/
 def selectTaxa (idx : List Nat) (G : PMat) : PMat := G.map (fun ph => Np.take idx ph)
 
+/-- **closed step on dosage matrices** (unphased populations of any ploidy; no immigration, no mutation):
+    allele 1 is carried by a member of `Q` at locus `j` (some dosage `> 0`) only if it is carried by a member of
+    `P` at `j`, and allele 0 (some dosage `< ploidy`) likewise -/
+def ClosedStepU (ploidy nv : Nat) (P Q : UMat) : Prop :=
+  ∀ j, j < nv → ((∃ r ∈ Q, 0 < entry r j) → ∃ r ∈ P, 0 < entry r j)
+    ∧ ((∃ r ∈ Q, entry r j < (ploidy : Int)) → ∃ r ∈ P, entry r j < (ploidy : Int))
+
+/-- decidable form used by the driver's Spec -/
+def closedStepUB (ploidy nv : Nat) (P Q : UMat) : Bool :=
+  (List.range nv).all (fun j =>
+    (!(Q.any (fun r => decide (0 < entry r j))) || P.any (fun r => decide (0 < entry r j)))
+    && (!(Q.any (fun r => decide (entry r j < (ploidy : Int)))) || P.any (fun r => decide (entry r j < (ploidy : Int)))))
+
+/-- unphased `select_taxa` (`numpy.take(mat, indices, axis = 0)`; indices may repeat) -/
+def selectTaxaU (idx : List Nat) (m : UMat) : UMat := Np.take idx m
+
+/-- in-place culling `remove_taxa(obj)` = `numpy.delete(mat, obj, axis = taxa_axis)`: the rows whose index is listed
+    are dropped, the others keep their order (phased: in every phase) -/
+def removeTaxa (idx : List Nat) (G : PMat) : PMat := G.map (Np.delete idx)
+def removeTaxaU (idx : List Nat) (m : UMat) : UMat := Np.delete idx m
+
 /-! ### meiosis and the seven mating protocols (draws are inputs) -/
 
 /-- literal transcription of the segment-copy loop of `mat_meiosis`:
